@@ -23,10 +23,20 @@ def run(w):
         mem.load_memory_card(b"", int(ln), writable=wr != "0")
     mem.set_memory_card_present(p != "0")
     if cfg.get("ov"):
-        for t in cfg["ov"].split("+"):
-            st, en, dl, ro, i = [int(x) for x in t.split(":")]
+        descs = [[int(x) for x in t.split(":")] for t in cfg["ov"].split("+")]
+        rom_window = [d for d in descs if d[0] == 0xC0000]
+        for st, en, dl, ro, i in descs:
             data = bytearray(rom_byte(i, o) for o in range(dl)) if ro else bytearray(dl)
-            mem.add_overlay(MemoryOverlay(start=st, end=en, name=f"ov{i:02d}", data=data, read_only=bool(ro)))
+            name = f"ov{i:02d}"
+            # go through the configuration entry points of PCE500Memory whenever the descriptor is one they can produce
+            if ro and st == 0xC0000 and en == 0xFFFFF and len(rom_window) == 1 and len(descs) == 1:
+                mem.load_rom(bytes(data))              # overlay "internal_rom" 0xC0000-0xFFFFF
+            elif ro and dl == en - st + 1:
+                mem.add_rom(st, bytes(data), name)
+            elif not ro and dl == en - st + 1:
+                mem.add_ram(st, dl, name)
+            else:
+                mem.add_overlay(MemoryOverlay(start=st, end=en, name=name, data=data, read_only=bool(ro)))
     out = []
     for op in w[1:]:
         q = op.split(":")
